@@ -70,6 +70,21 @@ def new_decoder():
 
 TCQ = [0, 2, 6, 11, 19, 21, 28, 29, 31]
 
+# MB fields (hex) that bds.infer classifies as the given class (None = random payload); classes 7 / 8
+# (BDS44 / BDS45) are never reported with mrar=False: the abstract contract allows them, natively they
+# cannot occur (native_optional)
+MB_OF_CLASS = {1: ["00000000000000"], 2: ["10000000000000"], 3: ["02000000000000"], 4: ["20820820820820"],
+               5: ["30000000000000"], 6: ["85E42F31300000"], 9: ["81951536E024D4", "FFB4351B6F3FFC"],
+               10: ["8F39F91A7E27C4", "A00004128F39F9"]}
+
+
+def sample_commb(rng, fixed):
+    cls = fixed.get("cls", 0)
+    mbs = MB_OF_CLASS.get(cls)
+    if mbs:
+        return {"mb": format(int(rng.choice(mbs), 16), "056b")}
+    return {}
+
 
 @harness("C17", inputs={"tc1": Choice(*range(32), quick=TCQ), "tc2": Choice(*range(32), quick=TCQ),
                          "r1": BinStr(51), "r2": BinStr(51), "p1": BinStr(24), "p2": BinStr(24), "case1": BinStr(28),
@@ -107,7 +122,7 @@ def two_adsb_messages(tc1, tc2, r1, r2, p1, p2, case1, case2, t1, d12, dnow, a2)
                          "df21": Choice(False, True), "cls": Choice(*range(12)), "t1": RealRange(0, 100000),
                          "d12": RealRange(0, 100), "known": Choice(True, False)},
          functions=[D + "process_raw"], body_of=[D + "process_raw", D + "get_aircraft"], overrides=OVR, idealised=True,
-         timeout={"quick": 120000, "thorough": 600000})
+         timeout={"quick": 120000, "thorough": 600000}, sampler=sample_commb, native_optional=True)
 def commb_attaches_only_to_known_aircraft(tc1, r1, p1, case1, head, mb, case2, df21, cls, t1, d12, known):
     dec = new_decoder()
     m1 = adsb_frame("A", bits_of(tc1, 5) + r1, p1, case1)
